@@ -282,6 +282,24 @@ impl EpochSnapshotManager {
         false
     }
 
+    /// Forget every snapshot of a group, in storage and in the queue.
+    ///
+    /// Called when a group is joined through a welcome: snapshots taken during an earlier
+    /// membership describe a different branch of the group's history and must never become
+    /// rollback targets of the new one.
+    pub fn release_group<S: MdkStorageProvider>(&self, storage: &S, group_id: &GroupId) {
+        if let Ok(stored) = storage.list_group_snapshots(group_id) {
+            for (snapshot_name, _) in stored {
+                let _ = storage.release_group_snapshot(group_id, &snapshot_name);
+            }
+        }
+
+        let mut inner = self.inner.lock().unwrap();
+        inner.snapshots.remove(group_id);
+        // Storage holds no snapshot of the group any more: nothing is left to hydrate
+        inner.hydrated_groups.insert(group_id.clone());
+    }
+
     /// Rollback to the snapshot for the given epoch.
     /// This restores the state to `target_epoch`.
     pub fn rollback_to_epoch<S: MdkStorageProvider>(
